@@ -33,6 +33,12 @@ def model_checks(res, tier):
             if r['violated']:
                 raise vlib.HarnessError('MC_Sva violated: the de Pina design model does not refine Mcb\n' + r['out'][-3000:])
             res.add_mc('MC_Sva (support-vector scheme with every tie/order choice refines Mcb)', r)
+        if res.pid == 'C02':
+            cfg = 'MC_SignedSearch_q.cfg' if tier == 'quick' else 'MC_SignedSearch_t.cfg'
+            r = vlib.tlc_ok('SignedSearch', cfg, extra=['-coverage', '1'], timeout=3000)
+            if r['violated']:
+                raise vlib.HarnessError('MC_SignedSearch violated: the signed-graph search model does not compute the minimum odd cycle\n' + r['out'][-3000:])
+            res.add_mc('SignedSearch.tla (signed-graph reduction: all-vertices branch and hidden-edge branch under every order = minimum odd cycle; optimum attained only by simple cycles), every S', r)
     finally:
         shutil.rmtree(wd, ignore_errors=True)
 
